@@ -298,7 +298,7 @@ CHECKS["C18"]["text"] += (" Call sequences: consecutive resampling / metrics cal
 def main():
     m = {
         "version": 1,
-        "setup_cmd": "cd lean && lake build",
+        "setup_cmd": "./setup.sh",
         "hooks": {
             "guard": "MIR_EVAL_VERIF",
             "enable": "no source hooks: checks import /repo in-process with PYTHONPATH=/repo; ./check exports "
